@@ -91,7 +91,7 @@ def _egos():
     if EGOS is None:
         from ..build import EgoPose
 
-        EGOS = [EgoPose(1000.0, -500.0, 0.0, math.pi / 2), EgoPose(-37.5, 220.25, 0.0, 0.7)]
+        EGOS = [EgoPose(1000.0, -500.0, 32.0, math.pi / 2), EgoPose(-37.5, 220.25, -4.5, 0.7)]
     return EGOS
 
 
@@ -185,6 +185,8 @@ def frame_configs(mgr, frame):
 # how an abstract confidence (percent) becomes a float: "wide" = c / 100; "tight" = 0.5 + c * 1e-9 (still pairwise distinct and in the same order,
 # but closer together than single precision resolves)
 CONF_RENDER = "wide"
+# every object floats 3 units above the ego's x/y plane: planar (bird's-eye) quantities must not see it
+OBJ_Z = 3.0
 
 
 def conf_value(c):
@@ -202,12 +204,12 @@ def render_objects(frame, rendering, ego):
     ests, gts = [], []
     for i, e in enumerate(frame["ests"]):
         at, nm = attr_kwargs(e["attr"], e["label"])
-        o_ = obj3d((e["x"], e["y"], 0), label=e["label"], score=conf_value(e["conf"]), frame=fr, ego=ego, uuid="e%d" % (i + 1), vid=i + 1, attributes=at, points=None)
+        o_ = obj3d((e["x"], e["y"], OBJ_Z), label=e["label"], score=conf_value(e["conf"]), frame=fr, ego=ego, uuid="e%d" % (i + 1), vid=i + 1, attributes=at, points=None)
         o_.semantic_label.name = nm
         ests.append(o_)
     for j, g in enumerate(frame["gts"]):
         at, nm = attr_kwargs(g["attr"], g["label"])
-        o_ = obj3d((g["x"], g["y"], 0), label=g["label"], score=1.0, frame=fr, ego=ego, uuid=("in%d" if g["uuid"] else "out%d") % (j + 1), vid=j + 1, attributes=at,
+        o_ = obj3d((g["x"], g["y"], OBJ_Z), label=g["label"], score=1.0, frame=fr, ego=ego, uuid=("in%d" if g["uuid"] else "out%d") % (j + 1), vid=j + 1, attributes=at,
                    points=g["pts"])
         o_.semantic_label.name = nm
         gts.append(o_)
